@@ -22,6 +22,7 @@ META = {
 }
 META["explanation"] += ' Also: __exit__ methods that can return a true value, user callbacks driven by map / filter / itertools, DEP-C05 acc-init.'
 META["explanation"] += ' Round 5: exceptions of the model / storage raised inside the default imputers come out of impute; DEP-C12 FORMULA / NOMUT; DEP-C05 result. HAZARD: constructs that do not mean what they look like, met in the analysed code (defaults evaluated once, class-level containers changed through self, dict.fromkeys with a shared mutable value, late-binding lambdas, truth value of objects that define __len__) are reported by every check.'
+META["explanation"] += ' Round 6: the package-wide clauses (finally / __exit__ / lazily driven callbacks) are evaluated first; an __exit__ that runs queued calls does so only when no exception is in flight.'
 MIN_INSTANCES = {"ORDER": 6}
 
 ENTRY = ("explain_one", "explain_many", "explain_many_original")
